@@ -235,6 +235,12 @@ int main(int argc, char **argv)
                 g_cur_idx = p.idx;
                 Outcome o = check_plan(prop, p);
                 printf("HASH %016llx\n", (unsigned long long)o.res.hash);
+                if (has_flag(argc, argv, "--dump")) {
+                        printf("OUT \"%s\"\nCMD_UNITS \"%s\"\nEV_UNITS \"%s\"\nCMD_HANDLERS\n%sEV_HANDLERS\n%s", vis(o.res.out, 4000).c_str(), vis(o.res.cmd_units, 4000).c_str(),
+                               vis(o.res.ev_units, 4000).c_str(), o.res.cmd_handlers.c_str(), o.res.ev_handlers.c_str());
+                        printf("svc_calls=%llu desync=%d lines=%llu units=%llu overrun=%d\n", (unsigned long long)o.res.eng.svc_calls, (int)o.res.desync, (unsigned long long)o.res.mon.lines,
+                               (unsigned long long)o.res.mon.units, (int)o.res.eng.overrun);
+                }
                 if (o.other.set())
                         printf("NOTE other-property finding: property=%s rule=%s %s\n", o.other.prop.c_str(), o.other.rule.c_str(), o.other.detail.c_str());
                 if (o.viol.set()) {
